@@ -48,6 +48,9 @@ type Script struct {
 	// the keys the HTTP transport itself uses for the outcome of a unary call ("x-grpc-status" saying code
 	// Spoof-1, "x-grpc-details"). Application metadata never changes the outcome the caller sees.
 	Spoof int `json:",omitempty"`
+	// SpoofCase: how the handler spells those keys: 0 = lower case (metadata.Pairs), 1 = canonical HTTP form
+	// ("X-Grpc-Status", what forwarding an upstream reply's http.Header as metadata yields), 2 = upper case
+	SpoofCase int `json:",omitempty"`
 	// StaticMD: the handler passes the same metadata objects (package-level "static headers") on every
 	// call instead of fresh ones; what one call does with them must not show up in the next
 	StaticMD bool `json:",omitempty"`
@@ -218,6 +221,15 @@ func scriptService(s *Script, o *Obs, mu *sync.Mutex) *Service {
 	runOps := func(ctx context.Context, stream grpc.ServerStream) {
 		if s.Spoof > 0 {
 			md := metadata.Pairs("x-grpc-status", fmt.Sprintf("%d:spoofed by handler metadata", s.Spoof-1), "x-grpc-details", "CgF4EgF5")
+			// (the reference transport refuses keys that are not lower case - HTTP/2 allows no others; it gets
+			// the lower-case spelling)
+			if s.SpoofCase > 0 && o.Carrier != cGRPC {
+				ks, kd := "X-Grpc-Status", "X-Grpc-Details"
+				if s.SpoofCase == 2 {
+					ks, kd = "X-GRPC-STATUS", "X-GRPC-DETAILS"
+				}
+				md = metadata.MD{ks: md["x-grpc-status"], kd: md["x-grpc-details"]}
+			}
 			if stream != nil {
 				stream.SetHeader(md)
 				stream.SetTrailer(md)
